@@ -7,6 +7,7 @@ import (
 	"fmt"
 	"os"
 	"runtime"
+	"runtime/pprof"
 	"strconv"
 	"sync/atomic"
 	"testing"
@@ -53,6 +54,12 @@ func TestNode(t *testing.T) {
 		}
 		writeResult(res)
 		os.Exit(0)
+	}
+	if pf := os.Getenv("SIMNODE_CPUPROFILE"); pf != "" {
+		if f, err := os.Create(pf); err == nil {
+			pprof.StartCPUProfile(f)
+			stopProfile = func() { pprof.StopCPUProfile(); f.Close() }
+		}
 	}
 	var progress atomic.Int64
 	// real-time watchdog, outside the bubble
